@@ -4,6 +4,10 @@ package main
 
 import (
 	"context"
+	"runtime"
+	"runtime/debug"
+	"sync"
+	"sync/atomic"
 	"errors"
 	"fmt"
 	"strings"
@@ -68,6 +72,54 @@ func drain(it gojq.Iter, ctx context.Context) Obs {
 	}
 }
 
+// ---------------------------------------------------------------- memory watchdog
+
+// A generated program may allocate without bound inside its time limit (a recursion whose base case was
+// shadowed away ate 53 GB in one thorough run and the kernel killed the shard). Every evaluation registers
+// its cancel function; when the heap passes memLimit the watchdog cancels all running evaluations (they end
+// as `timeout`, which both sides must then share) and frees memory.
+const memLimit = 6 << 30
+
+var (
+	cancelMu  sync.Mutex
+	cancelFns = map[int]context.CancelFunc{}
+	cancelSeq int
+	memHits   int64
+)
+
+func registerCancel(c context.CancelFunc) func() {
+	cancelMu.Lock()
+	cancelSeq++
+	id := cancelSeq
+	cancelFns[id] = c
+	cancelMu.Unlock()
+	return func() {
+		cancelMu.Lock()
+		delete(cancelFns, id)
+		cancelMu.Unlock()
+	}
+}
+
+func init() {
+	go func() {
+		var ms runtime.MemStats
+		for {
+			time.Sleep(100 * time.Millisecond)
+			runtime.ReadMemStats(&ms)
+			if ms.HeapAlloc > memLimit {
+				cancelMu.Lock()
+				for _, c := range cancelFns {
+					c()
+				}
+				cancelMu.Unlock()
+				atomic.AddInt64(&memHits, 1)
+				time.Sleep(300 * time.Millisecond)
+				debug.FreeOSMemory()
+			}
+		}
+	}()
+}
+
 // ---------------------------------------------------------------- (a) reference: the gojq library itself
 
 // The library has no debug/0, stderr/0, input_filename/0 (they belong to gojq's CLI: cli/cli.go:245-259
@@ -124,6 +176,7 @@ func runRefT(prog string, in any, to time.Duration) (res Obs) {
 		}
 		ctx, cancel := context.WithTimeout(context.Background(), to)
 		defer cancel()
+		defer registerCancel(cancel)()
 		res = drain(code.RunWithContext(ctx, nil, in), ctx)
 		return ""
 	})
@@ -187,6 +240,7 @@ func (f *fqInst) evalDirectT(prog string, to time.Duration) (res Obs) {
 		f.os.stderr.Reset()
 		ctx, cancel := context.WithTimeout(context.Background(), to)
 		defer cancel()
+		defer registerCancel(cancel)()
 		it, err := f.i.Eval(ctx, nil, prog, interp.EvalOpts{})
 		if err != nil {
 			if ctx.Err() != nil {
